@@ -846,6 +846,7 @@ func poison(r *lib.Report, evals *int64) {
 
 func main() {
 	r := lib.NewReport("C03")
+	defer r.Guard()
 	var evals, inputs int64
 	maxLen := 4
 	if r.Tier == "thorough" {
